@@ -84,6 +84,8 @@ bcap = find(r"async_broadcast::broadcast::<\(\)>\((\d+)\)", controller, "abort b
 floor = find(r"META_PARAMS_MUTATION_RESCALE_FLOOR:\s*f64\s*=\s*([0-9.e+-]+)", meta_adapt, "RESCALE_FLOOR", "1e-12", props="C14,C15")
 ceil = find(r"META_PARAMS_MUTATION_RESCALE_CEIL:\s*f64\s*=\s*([0-9.e+-]+)", meta_adapt, "RESCALE_CEIL", "1e12", props="C14,C15")
 
+scale_clamped = bool(re.search(r"fn rescale_scale\(.*?\{[^}]*\.clamp\(\s*f64::MIN_POSITIVE\s*,\s*f64::MAX\s*\)", strip_tests(meta_adapt), re.S)) and \
+    bool(re.search(r"mutation_scale:\s*rescale_scale\(", strip_tests(meta_adapt)))
 builtins = find(r"const BUILT_IN_TYPE_NAMES:[^=]*=\s*&\[(.*?)\];", spec_util, "BUILT_IN_TYPE_NAMES", "", props="C10")
 builtins = re.findall(r'"([^"]*)"', builtins or "")
 
@@ -155,12 +157,15 @@ def completionBranchGuarded : Bool := %s
 /-- header row of the detailed report (detailed_report.rs) -/
 def csvHeader : String := %s
 
+/-- `meta_adapt::mutate` clamps the mutated mutation scale into `[f64::MIN_POSITIVE, f64::MAX]` (`rescale_scale`) -/
+def scaleClamped : Bool := %s
+
 end Cambrian.Generated
 """ % (max_pop, min_reeval, chan, bcap, lean_list(builtins),
        lean_list(wl["real"]), lean_list(wl["int"]), lean_list(wl["bool"]), lean_list(wl["array"]),
        lean_list(wl["anonMap"]), lean_list(wl["enum"]), lean_list(wl["optional"]), lean_list(wl["const"]),
        json.dumps(def_prefix), json.dumps(member_prefix),
-       "true" if abort_guard else "false", "true" if completion_guard else "false", json.dumps(csv_header or ""))
+       "true" if abort_guard else "false", "true" if completion_guard else "false", json.dumps(csv_header or ""), "true" if scale_clamped else "false")
 
 old = open(OUT).read() if os.path.exists(OUT) else ""
 if gen != old:
